@@ -1,5 +1,6 @@
 (* Proofs/Bip32Glue.v — the guards and flag handling read from bitcoinlib/keys.py on this run
    (Gen/GenBip32.v, translator/gen_bip32.py) are the ones Model/Bip32.v uses (C03). *)
+From Coq Require Import String.
 From Coq Require Import ZArith List Bool Lia.
 From Coq.Strings Require Import Byte.
 From Verif Require Import Lib.Bytes Crypto.Secp256k1 Model.Bip32 Gen.GenBip32.
@@ -54,3 +55,28 @@ Proof.
   destruct (two31 <=? i) eqn:E; [|reflexivity].
   unfold lib_child_public. rewrite E. reflexivity.
 Qed.
+
+(* ---------------------------------------------------------------- state
+   What the derivation code writes outside its local variables, read from the source on this run: from_seed,
+   _key_derivation, fingerprint, subkey_for_path, child_private and child_public write NOTHING (no attribute or
+   subscript store on any object, no mutating call on self or a global, no global statement, no decorator, no mutable
+   default) — they keep no state, which is why Model/Bip32.v models them as functions and a session as a fold of
+   functions; the lazily memoised renderings of the immutable public key they read (Key.x, Key.y, Key.hash160) are the
+   four attributes below; HDKey.__init__ sets exactly the attributes below (key material and wallet settings, no
+   cache); public() works on a deepcopy and clears exactly the private fields; public_master writes the two wallet
+   settings multisig and witness_type on self, network_change the network (Model: cfg_after). *)
+Lemma gen_state_eq :
+  gen_derivation_writes = [] /\
+  gen_key_lazy_writes = ["x: self._x"%string; "y: self._y"%string; "y: self._public_uncompressed_hex"%string;
+                         "hash160: self._hash160"%string] /\
+  gen_hdkey_init_writes = ["self.script_type"%string; "self.encoding"%string; "self.witness_type"%string;
+                           "self.multisig"%string; "self.chain"%string; "self.depth"%string;
+                           "self.parent_fingerprint"%string; "self.child_index"%string; "self.key_type"%string] /\
+  gen_public_copy = "hdkey = deepcopy(self)"%string /\
+  gen_public_writes = ["hdkey.is_private"%string; "hdkey.secret"%string; "hdkey.private_hex"%string;
+                       "hdkey.private_byte"%string; "hdkey._wif"%string; "hdkey._wif_prefix"%string;
+                       "hdkey.key_hex"%string] /\
+  gen_public_master_writes = ["self.multisig"%string; "self.witness_type"%string] /\
+  gen_public_master_multisig_writes = [] /\
+  gen_network_change_writes = ["self.network"%string].
+Proof. repeat split; reflexivity. Qed.
